@@ -455,11 +455,11 @@ Definition apply_post (v : variant) (T : tarball) (w w' : world) (r : res) : Pro
                           fs w' (a_path a) = Some (Reg (a_content a) mm)) /\
               cur w' = t_to T /\ g_inst w' = t_to T /\
               option_map j_phase (jr w') = Some PCompleted) /\
-  (r = RErrRolledBack -> (exists gi, g_base w' = Some (true, base_of w (t_arts T), gi)) /\
+  (r = RErrRolledBack -> g_base w' = Some (true, base_of w (t_arts T), cur w) /\
                          (forall p f, In (p, f) (base_of w (t_arts T)) -> fs w' p = normf v f) /\
                          (v_curm_fix v = true -> cur w' = cur w)) /\
   (r = RErr -> fs w' = fs w /\ cur w' = cur w) /\
-  (forall b gi, g_base w' = Some (true, b, gi) -> b = base_of w (t_arts T)).
+  (forall b gi, g_base w' = Some (true, b, gi) -> b = base_of w (t_arts T) /\ gi = cur w).
 
 Lemma apply_flow_spec v T F w w' r :
   apply_flow v T F w = (w', r) -> NoDup (map a_path (t_arts T)) -> apply_post v T w w' r.
@@ -521,7 +521,7 @@ Proof.
       * intros Hr. destruct (P4 Hr) as (Q1 & Q2 & Q3 & Q4). splits; auto.
         intros a Ha. rewrite Q1. now apply Sw1.
       * intros Hr. destruct (P5 Hr) as (Q1 & Q2). splits; auto.
-        exists (cur w). rewrite P2, (gbase_of_frame _ _ F7). exact Hg2.
+        rewrite P2, (gbase_of_frame _ _ F7). exact Hg2.
       * intros Hr. contradiction.
       * intros b gi Hb. rewrite P2, (gbase_of_frame _ _ F7), Hg2 in Hb. now inv Hb.
     + rewrite (gbase_of_frame _ _ F7). exact Hg2.
@@ -594,7 +594,7 @@ Proof.
     + destruct (I3 eq_refl) as (P1 & P2 & P3 & P4 & P5).
       destruct r; try discriminate.
       * destruct (P2 eq_refl) as (Q1 & _). rewrite mon_new_ok; [discriminate|assumption].
-      * destruct (P3 eq_refl) as ([gi Q1] & Q2 & _).
+      * destruct (P3 eq_refl) as (Q1 & Q2 & _).
         erewrite mon_restored_ok; [discriminate|exact Q1|].
         intros p f Hin. rewrite (Q2 p f Hin). now apply normf_fixed.
     + destruct (I2 eq_refl) as [_ ->]. discriminate.
@@ -650,7 +650,7 @@ Proof.
   intros Hv Ha Had Hg ops Hrb w' r m Hin Hr a Hia.
   unfold apply in Ha. rewrite Had in Ha.
   destruct (apply_flow_spec _ _ _ _ _ _ Ha (admits_nodup _ _ _ Had)) as (P1 & _ & _ & _ & P5).
-  pose proof (P5 _ _ Hg) as ->.
+  destruct (P5 _ _ Hg) as [-> _].
   eapply (rb_only_restores v Hv ops w1 _ gi Hrb P1 Hg w' r m Hin Hr).
   unfold base_of. apply in_map_iff. exists a. split; [reflexivity|assumption].
 Qed.
@@ -786,4 +786,300 @@ Proof.
   destruct (step v w o) as [w1 [r1 m1]] eqn:Es.
   destruct (step_spec _ _ _ _ _ _ Es Hi Hv) as [I1 _].
   destruct Hin as [Heq|Hin]; [inv Heq; assumption|eauto].
+Qed.
+
+(* ================================================================== version invariant
+   J: current-manifest names the version the installed artifacts belong to (ghost g_inst),
+   every snapshot directory that has metadata carries the saved manifest of its own version,
+   and the ghost of the journal's upgrade agrees with the journal. *)
+Definition J (w : world) : Prop :=
+  cur w = g_inst w /\
+  (forall k d, snaps w k = Some d -> s_meta d <> None -> s_curm d = Some k) /\
+  match g_base w with
+  | None => option_map j_from (jr w) = None
+  | Some (b, _, vi) => option_map j_from (jr w) = Some vi /\ (b = false -> cur w = vi)
+  end.
+
+Lemma J_core w w' : frame w' = frame w -> cur w' = cur w -> g_inst w' = g_inst w -> J w -> J w'.
+Proof.
+  unfold J, frame. intros Hf Hc Hg (J1 & J2 & J3). injection Hf as Ha Hb Hs Hgb.
+  rewrite Hc, Hg, Hs, Hgb, Ha. auto.
+Qed.
+
+Lemma J_set_phase w ph : J w -> J (set_phase w ph).
+Proof. apply J_core; [apply frame_set_phase|apply cur_set_phase|apply ginst_set_phase]. Qed.
+
+Lemma cur_restore_ginst w : cur (restore_ginst w) = cur w.
+Proof. unfold restore_ginst. destruct (g_base w) as [[[[] ?] ?]|] eqn:E; reflexivity. Qed.
+
+Lemma rollback_J v F w w' r :
+  v_curm_fix v = true -> J w -> rollback_flow v F w = (w', r) ->
+  J w' /\ (r = RbOk -> forall b vi, g_base w = Some (true, b, vi) -> cur w' = vi).
+Proof.
+  intros Hv Hj H. unfold rollback_flow in H.
+  destruct (jr w) as [j|] eqn:Ej; [|inv H; split; [assumption|discriminate]].
+  destruct (snaps w (j_from j)) as [d|] eqn:Ed; [|inv H; split; [assumption|discriminate]].
+  destruct (s_meta d) as [[nv es]|] eqn:Em; [|inv H; split; [assumption|discriminate]].
+  destruct (seq_oc _); try (inv H; split; [assumption|discriminate]).
+  destruct (restore_loop _ _ _) as [w2 ok] eqn:Er.
+  apply restore_loop_frame in Er as (F2 & C2 & G2).
+  rewrite frame_set_obst in F2. simpl in C2, G2.
+  assert (J2w : J w2) by (apply (J_core w); assumption).
+  destruct ok; simpl in H; [|inv H; split; [now apply J_set_phase|discriminate]].
+  set (w3 := restore_ginst (restore_curm v w2 d)) in *.
+  destruct Hj as (J1 & J2 & J3).
+  assert (Hcurm : s_curm d = Some (j_from j)) by (apply J2; [assumption|congruence]).
+  assert (C3 : cur w3 = j_from j).
+  { unfold w3. rewrite cur_restore_ginst. unfold restore_curm. rewrite Hv, Hcurm. reflexivity. }
+  assert (F3 : frame w3 = frame w).
+  { unfold w3. now rewrite frame_restore_ginst, frame_restore_curm. }
+  assert (Gb3 : g_base (restore_curm v w2 d) = g_base w).
+  { apply gbase_of_frame. now rewrite frame_restore_curm. }
+  assert (J3w : J w3 /\ (forall b vi, g_base w = Some (true, b, vi) -> cur w3 = vi)).
+  { unfold J. rewrite (gbase_of_frame _ _ F3).
+    assert (Hsn : snaps w3 = snaps w) by (unfold frame in F3; now injection F3).
+    assert (Hjf : option_map j_from (jr w3) = option_map j_from (jr w)) by (unfold frame in F3; now injection F3).
+    rewrite Hsn, Hjf, C3, Ej. simpl.
+    destruct (g_base w) as [[[b base] vi]|] eqn:Eg.
+    - rewrite Ej in J3. simpl in J3. destruct J3 as [J3a J3b].
+      assert (Hvi : vi = j_from j) by congruence. subst vi. clear J3a.
+      split; [|intros b0 vi0 Hb; injection Hb as _ _ <-; reflexivity].
+      split; [|split; [exact J2|split; [reflexivity|reflexivity]]].
+      unfold w3, restore_ginst. rewrite Gb3. try rewrite Eg. destruct b; simpl.
+      + reflexivity.
+      + unfold restore_curm. rewrite Hv, Hcurm. simpl. rewrite G2, <- J1. symmetry. now apply J3b.
+    - rewrite Ej in J3. discriminate. }
+  destruct J3w as [J3w V3].
+  destruct (if nv then vpp_seq F 10 else OGo);
+    [|inv H; split; [now apply J_set_phase|discriminate]|inv H; split; [assumption|discriminate]].
+  destruct (seq_oc _);
+    [|inv H; split; [now apply J_set_phase|discriminate]|inv H; split; [assumption|discriminate]].
+  destruct (f_hr F); inv H; (split; [now apply J_set_phase|]); try discriminate.
+  intros _ b vi Hb. rewrite cur_set_phase. eauto.
+Qed.
+
+Lemma auto_rollback_J v F w w' r :
+  v_curm_fix v = true -> J w -> auto_rollback v F w = (w', r) ->
+  J w' /\ (r = RErrRolledBack -> forall b vi, g_base w = Some (true, b, vi) -> cur w' = vi).
+Proof.
+  intros Hv Hj H. unfold auto_rollback in H.
+  destruct (crash_at F 52); [inv H; split; [assumption|discriminate]|].
+  destruct (rollback_flow v F w) as [w1 rr] eqn:E.
+  destruct (rollback_J _ _ _ _ _ Hv Hj E) as [J1 V1].
+  destruct rr; inv H; (split; [try apply J_set_phase; assumption|]); try discriminate.
+  intros _. now apply V1.
+Qed.
+
+Lemma J_commit w v0 : J w -> (exists b base vi, g_base w = Some (b, base, vi) /\ b = true) ->
+  J (set_ginst (set_cur w v0) v0).
+Proof.
+  intros (J1 & J2 & J3) (b & base & vi & Hg & ->). unfold J. simpl. rewrite Hg in *.
+  split; [reflexivity|]. split; [exact J2|]. destruct J3 as [J3 _]. split; [exact J3|discriminate].
+Qed.
+
+Lemma J_prune w k : J w -> J (prune w k).
+Proof.
+  intros (J1 & J2 & J3). unfold J, prune. simpl. split; [assumption|]. split; [|assumption].
+  intros q d Hq Hm. destruct (N.eqb q k); [now apply J2|].
+  destruct (snaps w q) as [d0|]; [|discriminate]. destruct (s_meta d0) eqn:E0; [discriminate|].
+  inv Hq. congruence.
+Qed.
+
+Lemma post_swap_J v T F from w7 w' r :
+  v_curm_fix v = true -> J w7 -> (exists base vi, g_base w7 = Some (true, base, vi)) ->
+  post_swap v T F from w7 = (w', r) ->
+  J w' /\ (r = RErrRolledBack -> forall b vi, g_base w7 = Some (true, b, vi) -> cur w' = vi).
+Proof.
+  intros Hv Hj (base & vi & Hg) H. unfold post_swap in H.
+  assert (Hauto : forall ph, auto_rollback v F (set_phase w7 ph) = (w', r) ->
+    J w' /\ (r = RErrRolledBack -> forall b vi, g_base w7 = Some (true, b, vi) -> cur w' = vi)).
+  { intros ph Ha. destruct (auto_rollback_J _ _ _ _ _ Hv (J_set_phase _ ph Hj) Ha) as [A1 A2].
+    split; [assumption|]. intros Hr b0 vi0 Hb. apply (A2 Hr b0).
+    rewrite (gbase_of_frame _ _ (frame_set_phase w7 ph)). exact Hb. }
+  destruct (if needs_vpp (t_arts T) then vpp_seq F 0 else OGo);
+    [|now apply (Hauto PAbortedPostSwap)|inv H; split; [assumption|discriminate]].
+  destruct (seq_oc _);
+    [|now apply (Hauto PAbortedPostSwap)|inv H; split; [assumption|discriminate]].
+  destruct (crash_at F 31); [inv H; split; [now apply J_set_phase|discriminate]|].
+  destruct (f_ha F); simpl in H.
+  2:{ destruct (crash_at F 53); [inv H; split; [now apply J_set_phase|discriminate]|].
+      destruct (auto_rollback_J _ _ _ _ _ Hv (J_set_phase _ PHealthFailed (J_set_phase _ PDaemonStarted Hj)) H) as [A1 A2].
+      split; [assumption|]. intros Hr b0 vi0 Hb. apply (A2 Hr b0).
+      rewrite (gbase_of_frame _ _ (frame_set_phase _ _)), (gbase_of_frame _ _ (frame_set_phase _ _)). exact Hb. }
+  destruct (crash_at F 32); [inv H; split; [now apply J_set_phase|discriminate]|].
+  assert (Jc : J (set_ginst (set_cur (set_phase w7 PDaemonStarted) (t_to T)) (t_to T))).
+  { apply J_commit; [now apply J_set_phase|].
+    exists true, base, vi. split; [|reflexivity].
+    rewrite (gbase_of_frame _ _ (frame_set_phase _ _)). exact Hg. }
+  destruct (crash_at F 35); [inv H; split; [assumption|discriminate]|].
+  destruct (crash_at F 33); [inv H; split; [now apply J_set_phase|discriminate]|].
+  destruct (crash_at F 34); inv H; (split; [apply J_prune; now apply J_set_phase|discriminate]).
+Qed.
+
+Lemma do_snapshot_J2 v w arts w1 ok :
+  v_curm_fix v = true ->
+  (forall k d, snaps w k = Some d -> s_meta d <> None -> s_curm d = Some k) ->
+  do_snapshot v w (cur w) arts = (w1, ok) ->
+  (forall k d, snaps w1 k = Some d -> s_meta d <> None -> s_curm d = Some k).
+Proof.
+  intros Hv H2 H. unfold do_snapshot in H.
+  destruct (snap_loop _ _ _ _) as [b [l|]]; inv H; simpl; intros k d Hk Hm.
+  - unfold upd in Hk. destruct (N.eqb_spec k (cur w)) as [->|Hne]; [|now apply H2].
+    inv Hk. simpl. now rewrite Hv.
+  - unfold upd in Hk. destruct (N.eqb_spec k (cur w)) as [->|Hne]; [|now apply H2].
+    inv Hk. simpl in *. destruct (snaps w (cur w)) as [d0|] eqn:E0; [now apply H2|]. simpl in Hm. congruence.
+Qed.
+
+Lemma apply_flow_J v T F w w' r :
+  v_curm_fix v = true -> J w -> apply_flow v T F w = (w', r) ->
+  J w' /\ (r = RErrRolledBack -> cur w' = cur w).
+Proof.
+  intros Hv (J1 & J2 & J3) H. unfold apply_flow in H.
+  set (base := base_of w (t_arts T)) in *.
+  set (w0 := set_gbase _ _) in H.
+  assert (J0 : J w0).
+  { unfold J, w0. simpl. split; [assumption|]. split; [assumption|]. split; reflexivity. }
+  destruct (crash_at F 25); [inv H; split; [assumption|discriminate]|].
+  destruct (do_snapshot v w0 (cur w) (t_arts T)) as [w1 ok] eqn:Es.
+  pose proof (do_snapshot_J2 v w0 (t_arts T) w1 ok Hv J2 Es) as S2.
+  apply do_snapshot_spec in Es as (S1 & _ & S3 & _ & S5 & S6 & _).
+  assert (J1w : J w1).
+  { unfold J. rewrite S3, S5, S6, S1. unfold w0. simpl. split; [assumption|]. split; [assumption|]. split; reflexivity. }
+  destruct ok; simpl in H; [|inv H; split; [assumption|discriminate]].
+  set (w2 := set_phase (set_gbase w1 _) PSnapshotDone) in H.
+  assert (J2w : J w2).
+  { unfold w2. apply J_set_phase. unfold J. simpl. rewrite S3, S5, S1. unfold w0. simpl.
+    split; [assumption|]. split; [assumption|]. split; [reflexivity|discriminate]. }
+  assert (Hg2 : g_base w2 = Some (true, base, cur w)).
+  { unfold w2. rewrite (gbase_of_frame _ _ (frame_set_phase _ _)). reflexivity. }
+  destruct (crash_at F 26); [inv H; split; [assumption|discriminate]|].
+  destruct (t_hook_ok T); simpl in H; [|inv H; split; [assumption|discriminate]].
+  destruct (seq_oc _); try (inv H; split; [now apply J_set_phase|discriminate]).
+  destruct (seq_oc _); try (inv H; split; [do 2 apply J_set_phase; assumption|discriminate]).
+  destruct (crash_at F 29); [inv H; split; [do 3 apply J_set_phase; assumption|discriminate]|].
+  destruct (swap_loop _ _) as [w7 sok] eqn:Esw.
+  apply swap_loop_frame in Esw as (F7 & C7 & G7).
+  rewrite frame_set_obst, !frame_set_phase in F7. simpl in C7, G7.
+  rewrite !cur_set_phase in C7. rewrite !ginst_set_phase in G7.
+  assert (J7 : J w7) by (apply (J_core w2); assumption).
+  assert (Hg7 : g_base w7 = Some (true, base, cur w)) by (rewrite (gbase_of_frame _ _ F7); exact Hg2).
+  destruct sok; simpl in H.
+  - destruct (post_swap_J _ _ _ _ _ _ _ Hv J7 (ex_intro _ base (ex_intro _ (cur w) Hg7)) H) as [P1 P2].
+    split; [assumption|]. intros Hr. eapply P2; eauto.
+  - destruct (crash_at F 51); [inv H; split; [assumption|discriminate]|].
+    destruct (auto_rollback_J _ _ _ _ _ Hv (J_set_phase _ PAbortedMidSwap J7) H) as [A1 A2].
+    split; [assumption|]. intros Hr. apply (A2 Hr base).
+    rewrite (gbase_of_frame _ _ (frame_set_phase _ _)). exact Hg7.
+Qed.
+
+Lemma step_J v w o :
+  v_curm_fix v = true -> J w -> J (fst (step v w o)).
+Proof.
+  intros Hv Hj. destruct o as [T Q F|F| |p f]; simpl.
+  - unfold apply. destruct (admits T Q w); [|exact Hj].
+    destruct (apply_flow v T F w) as [w1 r1] eqn:E. simpl.
+    now destruct (apply_flow_J _ _ _ _ _ _ Hv Hj E).
+  - destruct (rollback_flow v F w) as [w1 rr] eqn:E.
+    destruct (rollback_J _ _ _ _ _ Hv Hj E) as [J1 _]. destruct rr; exact J1.
+  - apply (J_core w); auto.
+  - apply (J_core w); auto.
+Qed.
+
+Lemma J_init c f : J (init_world c f).
+Proof. unfold J, init_world. simpl. split; [reflexivity|]. split; [discriminate|reflexivity]. Qed.
+
+Lemma exec_J v : v_curm_fix v = true -> forall ops w, J w -> J (exec v w ops).
+Proof.
+  intros Hv. induction ops as [|o ops IH]; simpl; intros w Hj; [assumption|].
+  apply IH. now apply step_J.
+Qed.
+
+Lemma exec_Inv v : v_mode_fix v = true -> forall ops w, Inv v w -> Inv v (exec v w ops).
+Proof.
+  intros Hv. induction ops as [|o ops IH]; simpl; intros w Hi; [assumption|].
+  apply IH. destruct (step v w o) as [w1 [r1 m1]] eqn:Es. simpl.
+  now destruct (step_spec _ _ _ _ _ _ Es Hi Hv).
+Qed.
+
+(* every step from a reachable state: tree monitor and version monitor never alarm *)
+Lemma step_consistent v w o w' r m :
+  v_mode_fix v = true -> v_curm_fix v = true -> Inv v w -> J w ->
+  step v w o = (w', (r, m)) -> m <> MonMixed /\ step_ver o w' r <> MonMixed.
+Proof.
+  intros Hm Hc Hi Hj Hs. split; [now destruct (step_spec _ _ _ _ _ _ Hs Hi Hm)|].
+  destruct o as [T Q F|F| |p f]; simpl in *; try discriminate.
+  - destruct (apply v T Q F w) as [w1 r1] eqn:Ea. inv Hs.
+    destruct r; try discriminate.
+    + destruct (no_mixed_success _ _ _ _ _ _ Ea) as (_ & Hcur & _).
+      unfold ver_new. rewrite Hcur, N.eqb_refl. discriminate.
+    + unfold apply in Ea. destruct (admits T Q w) eqn:Ead; [|discriminate].
+      destruct (apply_flow_spec _ _ _ _ _ _ Ea (admits_nodup _ _ _ Ead)) as (_ & _ & P3 & _).
+      destruct (P3 eq_refl) as (Q1 & _ & Q3).
+      unfold ver_restored. rewrite Q1, (Q3 Hc), N.eqb_refl. discriminate.
+  - destruct (rollback_flow v F w) as [w1 rr] eqn:Er.
+    destruct (rollback_J _ _ _ _ _ Hc Hj Er) as [_ V1].
+    pose proof (gbase_of_frame _ _ (rollback_frame _ _ _ _ _ Er)) as Hg.
+    destruct rr; inv Hs; try discriminate.
+    unfold ver_restored. rewrite Hg. destruct (g_base w) as [[[[] b] vi]|] eqn:Eg; try discriminate.
+    rewrite (V1 eq_refl b vi eq_refl), N.eqb_refl. discriminate.
+Qed.
+
+Lemma reachable_consistent c f ops o w' r m :
+  step repaired (exec repaired (init_world c f) ops) o = (w', (r, m)) ->
+  m <> MonMixed /\ step_ver o w' r <> MonMixed.
+Proof.
+  apply step_consistent; try reflexivity.
+  - apply exec_Inv; [reflexivity|apply Inv_init].
+  - apply exec_J; [reflexivity|apply J_init].
+Qed.
+
+Lemma reachable_version c f ops : let w := exec repaired (init_world c f) ops in cur w = g_inst w.
+Proof. apply (exec_J repaired eq_refl ops _ (J_init c f)). Qed.
+
+Lemma wrong_predecessor_never_modifies c f ops T Q F pv wf :
+  let w := exec repaired (init_world c f) ops in
+  t_prev T = Prev pv wf -> pv <> g_inst w -> apply repaired T Q F w = (w, RErr).
+Proof.
+  intros w Hp Hne. apply admission_before_mutation. right. right. right.
+  exists pv, wf. split; [assumption|right]. unfold w in *. now rewrite reachable_version.
+Qed.
+
+Lemma rb_only_version v : v_curm_fix v = true -> forall ops w b gi,
+  rb_only ops -> J w -> g_base w = Some (true, b, gi) ->
+  forall w' r m, In (w', (r, m)) (run v w ops) -> r = RRbOk -> cur w' = gi.
+Proof.
+  intros Hv. induction ops as [|o ops IH]; simpl; intros w b gi Hrb Hj Hg w' r m Hin Hr; [contradiction|].
+  inv Hrb. destruct (step v w o) as [w1 [r1 m1]] eqn:Es.
+  assert (Hnext : J w1 /\ g_base w1 = Some (true, b, gi) /\ (r1 = RRbOk -> cur w1 = gi)).
+  { destruct o as [T Q F|F| |p0 f0]; try contradiction; simpl in Es.
+    - destruct (rollback_flow v F w) as [w2 rr] eqn:Er.
+      destruct (rollback_J _ _ _ _ _ Hv Hj Er) as [J1 V1].
+      pose proof (gbase_of_frame _ _ (rollback_frame _ _ _ _ _ Er)) as Hg2.
+      destruct rr; inv Es; splits; auto; try congruence; try discriminate.
+      intros _. eapply V1; eauto.
+    - inv Es. splits; auto; try discriminate. }
+  destruct Hnext as (N1 & N2 & N3).
+  destruct Hin as [Heq|Hin]; [inv Heq; auto|eauto].
+Qed.
+
+(* the complete statement for a reachable state w: whatever an admitted apply does after its snapshot
+   completed, every later rollback that reports success restores tree AND version *)
+Lemma reachable_crash_then_rollback c f ops0 T Q F w1 r1 b gi :
+  let w := exec repaired (init_world c f) ops0 in
+  apply repaired T Q F w = (w1, r1) -> admits T Q w = true ->
+  g_base w1 = Some (true, b, gi) ->
+  forall ops, rb_only ops ->
+  forall w' r m, In (w', (r, m)) (run repaired w1 ops) -> r = RRbOk ->
+  (forall a, In a (t_arts T) -> fs w' (a_path a) = fs w (a_path a)) /\ cur w' = cur w /\ cur w' = g_inst w.
+Proof.
+  intros w Ha Had Hg ops Hrb w' r m Hin Hr.
+  assert (Hj : J w) by (apply exec_J; [reflexivity|apply J_init]).
+  split; [eapply crash_then_rollback_restores; eauto; reflexivity|].
+  assert (Hcur : cur w' = cur w).
+  { pose proof Ha as Ha'. unfold apply in Ha'. rewrite Had in Ha'.
+    destruct (apply_flow_spec _ _ _ _ _ _ Ha' (admits_nodup _ _ _ Had)) as (_ & _ & _ & _ & P5).
+    destruct (P5 _ _ Hg) as [_ ->].
+    destruct (apply_flow_J repaired _ _ _ _ _ eq_refl Hj Ha') as [J1 _].
+    eapply (rb_only_version repaired eq_refl ops w1 b (cur w)); eauto. }
+  split; [assumption|]. rewrite Hcur. apply Hj.
 Qed.
